@@ -71,7 +71,7 @@ theorem rep_exact_trie (cfg : Config) (hp : RepPrint cfg) (env : Env) (ws : List
   obtain ⟨P, hP, hm⟩ := rep_exact cfg hp env ws st h hseg hlen hne s hs
   refine ⟨P, hP, hm.trans ?_⟩
   obtain ⟨_, _, htrie, hmin, _⟩ := from_stages_shape cfg env ws st h
-  have hcounts := fun cl hc => (rep_clusters_lit cfg hp.toNA env ws st h hseg hlen cl hc).2
+  have hcounts := fun cl hc => (rep_clusters_lit cfg hp.rep hp.minRep env ws st h hseg hlen cl hc).2
   obtain ⟨m, hmm, hex⟩ := minimize_trie_r_exact st.clusters hcounts
   rw [← htrie, hmin] at hmm
   cases hmm
